@@ -6,6 +6,7 @@ package ir
 // []value.Value field and, recursively, the same inside []*T sub-structures.
 
 import (
+	"github.com/llir/llvm/ir/enum"
 	"fmt"
 	"os"
 	"reflect"
@@ -197,6 +198,30 @@ func TestVerifC15(t *testing.T) {
 			}
 		}
 	}
+	// substituting a value through the slots of its users leaves no use behind: arguments carrying parameter
+	// attributes are stored as *ir.Arg wrappers around the value
+	cases++
+	func() {
+		defer func() {
+			if e := recover(); e != nil {
+				fail("substitute call argument: panic %v", e)
+			}
+		}()
+		x := NewParam("x", types.I32)
+		y := NewParam("y", types.I32)
+		callee := NewFunc("g", types.Void, NewParam("", types.I32), NewParam("", types.I32))
+		call := NewCall(callee, x, NewArg(x, enum.ParamAttrNoUndef))
+		replaced := 0
+		for _, slot := range call.Operands() {
+			if *slot == value.Value(x) {
+				*slot = y
+				replaced++
+			}
+		}
+		if text := call.LLString(); strings.Contains(text, "%x") {
+			fail("substitute: after replacing %%x by %%y through every operand slot of the call (%d slots replaced) a use of %%x is left behind (an argument with parameter attributes is an *ir.Arg wrapper; the slot holds the wrapper): %s", replaced, text)
+		}
+	}()
 	fmt.Printf("REPLAY-CASES %d\n", cases)
 	if fails > 0 {
 		t.Fatalf("%d failures", fails)
